@@ -18,6 +18,8 @@ SPECS = [
     "listener_go=p2p/net/upgrader/listener.go:listener.handleIncoming#go0",
     "gated_accept=p2p/net/upgrader/listener.go:gatedMaListener.Accept",
     "listener_accept=p2p/net/upgrader/listener.go:listener.Accept",
+    "listener_loop=p2p/net/upgrader/listener.go:listener.handleIncoming",
+    "host_streamhandler=p2p/host/basic/basic_host.go:BasicHost.newStreamHandler",
     "tcp_dial=p2p/transport/tcp/tcp.go:TcpTransport.DialWithUpdates",
     "tcp_dial_scope=p2p/transport/tcp/tcp.go:TcpTransport.dialWithScope",
     "conn_newstream=p2p/net/swarm/swarm_conn.go:Conn.NewStream",
@@ -91,7 +93,9 @@ KIND = {1: "outbound dial (TcpTransport.Dial > Upgrade)", 2: "inbound accept (up
         3: "stream open (BasicHost.NewStream; cfg 0 = opener, 1 = remote host)", 4: "host Close (usage after close, listeners/conns gone)"}
 FAULT = {0: "none", 1: "read error", 2: "write error", 3: "EOF", 4: "socket dies", 5: "stall until deadline",
          10: "none (protocol served)", 11: "no handler for the protocol", 12: "local rcmgr refuses the protocol scope", 13: "remote rcmgr refuses the protocol scope",
-         14: "remote handler resets", 15: "context cancelled (served protocol)", 16: "context cancelled (unserved protocol)"}
+         14: "remote handler resets", 15: "context cancelled (served protocol)", 16: "context cancelled (unserved protocol)",
+         17: "raw stream closed before protocol negotiation", 18: "garbage instead of protocol negotiation",
+         200: "accept queue not served", 201: "remote closed while queued", 202: "listener closed with a parked connection"}
 SPECIAL = {0: "", 1: "dial with empty peer ID", 2: "server gater rejects at InterceptSecured", 3: "client gater rejects at InterceptSecured",
            4: "server gater rejects at InterceptAccept", 5: "private network forced, no PSK", 6: "nobody accepts for longer than the accept timeout", 7: "the remote closes while the upgraded conn waits in the accept queue"}
 
